@@ -39,6 +39,8 @@ type Env struct {
 	memo          sync.Map
 	constCache    sync.Map
 	fnInfos       sync.Map
+	crossKind     string
+	crossQueries  int
 }
 
 type Harness struct {
